@@ -133,6 +133,7 @@ loop (each round finishes one callback; at most one is held). -/
 def joinFuel : Nat → Proc → Proc
   | 0, p => p
   | n + 1, p =>
+    if p.closer != .ringClosed then p else
     let p := settle (cexec p)
     let p' := closeStep p
     if p'.closer == .returned then p' else joinFuel n p'
